@@ -24,6 +24,7 @@
 //   removed <id>:<code> …
 //   verdict adjusted <d> | cannot <d> <0|1> <i:T:id,…> | exception <text>
 #include <cstdio>
+#include <cstdlib>
 #include <fstream>
 #include <iostream>
 #include <map>
@@ -52,6 +53,7 @@ struct Answers {
 static std::map<std::string, Answers> table;
 static std::unique_ptr<LocalNetwork> IS;
 static std::vector<std::string> views;
+static int resets = 0;             // project_equations() calls of the current case (divergence guard)
 
 static int kind_code(const std::string& k) {
   if (k == "ok") return 0;
@@ -122,6 +124,13 @@ class Scripted : public SparseBase {
   void thr(int code) const { if (code) throw MVE(code, "scripted"); }
 public:
   void reset(const GNU_gama::AdjInputData* data) override {
+    // a removal loop that does not terminate (C20_removal_terminates: at most actives+1 rounds, <= 9 here) must
+    // not hang the check: report and leave
+    if (++resets > 500) {
+      std::cout << "diverged project_equations() called more than 500 times on " << key_of() << "\n";
+      std::cout.flush();
+      std::_Exit(3);
+    }
     SparseBase::reset(data);
     key = key_of();
     auto it = table.find(key);
@@ -205,7 +214,7 @@ int main() {
   set_gama_language(en);
   std::string line; bool is_case;
   while (vp::next(line, is_case)) {
-    if (is_case) { IS.reset(); table.clear(); views.clear(); continue; }
+    if (is_case) { IS.reset(); table.clear(); views.clear(); resets = 0; continue; }
     std::vector<std::string> t = vp::tokens(line);
     if (t.empty()) continue;
     try {
